@@ -479,11 +479,14 @@ fn check_graph_scorer(net: &Net, i: usize, st: &mut St, ctx: &mut Ctx, op: &str)
 			let pk = match dst.as_pubkey() { Ok(p) => p, Err(_) => continue };
 			let amt = match ctx.rng.below(4) { 0 => 1, 1 => 1_000_000_000, _ => 1 + ctx.rng.below(500_000_000) };
 			let path = Path { hops: vec![RouteHop { pubkey: pk, node_features: NodeFeatures::empty(), short_channel_id: scid, channel_features: ChannelFeatures::empty(), fee_msat: amt, cltv_expiry_delta: 40, maybe_announced_channel: true }], blinded_tail: None };
-			now += ctx.rng.below(100_000);
+			// mostly short steps; sometimes longer than historical_no_updates_half_life (14 days), so that time_passed decays the
+			// historical buckets of channels without new data (offset_history_last_updated then differs from last_datapoint_time)
+			now += if ctx.rng.chance(1, 6) { 1_300_000 + ctx.rng.below(4_000_000) } else { ctx.rng.below(100_000) };
 			let d = Duration::from_secs(now);
 			match ctx.rng.below(5) { 0 => sc.payment_path_failed(&path, scid, d), 1 => sc.payment_path_successful(&path, d), 2 => sc.probe_failed(&path, scid, d), 3 => sc.probe_successful(&path, d), _ => sc.time_passed(d) }
 		}
 	}
+	if !scids.is_empty() && ctx.rng.chance(1, 2) { let now = 1_700_000_000u64 + 40 * 100_000 + 1_300_000 + ctx.rng.below(20_000_000); sc.time_passed(Duration::from_secs(now)); st.mon_states.insert("scorer-after-long-idle-decay".into()); }
 	let sb = sc.encode();
 	match guarded(AssertUnwindSafe(|| <ProbabilisticScorer<&NetworkGraph<&TestLogger>, &TestLogger>>::read(&mut &sb[..], (params, g, node.logger)))) {
 		Ok(Ok(sc2)) => {
